@@ -10,6 +10,7 @@ open LLRP LLRP.LTS
 def parseObs03 : List String → Obs → Option Obs
   | [], o => some o
   | t :: rest, o =>
+    if t.startsWith "#" then parseObs03 rest o else
     match t.splitOn ":" with
     | ["p", typ, id, pay] =>
       match natArgs [typ, id, pay] with
